@@ -524,7 +524,7 @@ def _classify_source(repo, func, cfg, flow, node, v, seq):
             return None
         return None
     ap = path_of(v)
-    if ap == seq + '.subproof.items[*].th':
+    if ap == seq + '.subproof.items[-1].th':
         # must be dominated by a loop over seq.subproof.items that re-checks every item
         for it in cfg.nodes_of_kind('iter'):
             if path_of(it.ast.iter) == seq + '.subproof.items' and isinstance(it.ast.target, ast.Name):
